@@ -492,7 +492,12 @@ impl Session {
                             }
                             let r1 = ax.handle_syscalls(vec![Syscall::Exit]).is_err();
                             let r2 = ax.hook_before_mnemonic_native(SupportedMnemonic::Nop, &noop).is_err();
-                            format!(":rej{}{}", r1 as u8, r2 as u8)
+                            // … also for the mnemonics whose instructions ask "is there any hook at all"
+                            let r3 = ax.hook_before_mnemonic_native(SupportedMnemonic::Syscall, &noop).is_err()
+                                & ax.hook_after_mnemonic_native(SupportedMnemonic::Int3, &noop).is_err()
+                                & ax.hook_before_mnemonic_native(SupportedMnemonic::Int, &noop).is_err()
+                                & ax.hook_after_mnemonic_native(SupportedMnemonic::Int1, &noop).is_err();
+                            format!(":rej{}{}", r1 as u8, (r2 & r3) as u8)
                         } else {
                             String::new()
                         };
@@ -512,6 +517,10 @@ impl Session {
                         }
                         match outcome.as_str() {
                             "error" => Err(AxError::from("scripted hook error").into()),
+                            "stoperror" => {
+                                ax.stop();
+                                Err(AxError::from("scripted hook error after stop").into())
+                            }
                             "handled" => Ok(HookResult::Handled),
                             "stop" => {
                                 ax.stop();
@@ -589,6 +598,28 @@ impl Session {
                     Ok(v) => {
                         ax.reg_write_64(r, v).ok()?;
                         "ok".to_string()
+                    }
+                    Err(e) => err_out(&e),
+                })
+            }
+            ["stat", ra, v] => {
+                // store a 64-bit value at the address held in a register (an address the run itself produced)
+                let ra = reg_by_name(ra)?;
+                let v = parse_hex(v)?;
+                let ax = self.ax();
+                Some(match ax.reg_read_64(ra) {
+                    Ok(a) => res_unit(ax.mem_write_64(a, v)),
+                    Err(e) => err_out(&e),
+                })
+            }
+            ["ldat", r, ra] => {
+                // r := the 64-bit value at the address held in ra
+                let (r, ra) = (reg_by_name(r)?, reg_by_name(ra)?);
+                let ax = self.ax();
+                Some(match ax.reg_read_64(ra).and_then(|a| ax.mem_read_64(a)) {
+                    Ok(v) => {
+                        ax.reg_write_64(r, v).ok()?;
+                        format!("ok {:x}", v)
                     }
                     Err(e) => err_out(&e),
                 })
